@@ -197,7 +197,27 @@ def rule_terms_multiset(ctx: Ctx, rep: Report) -> None:
     rule_terms_are_a_multiset(ctx, rep, "C03.terms_multiset", ('btclib.curves.curve', 'btclib.ecc.ssa'), 2)
 
 
+def rule_aux_in_commitment(ctx: Ctx, rep: Report) -> None:
+    """C03.aux_in_commitment: with a sign-to-contract commitment the auxiliary
+    randomness still counts: what replaces `aux` is the hash of aux *and* the
+    commitment. Built from the commitment alone, every (message, key,
+    commitment) has one signature whatever aux the caller gave -- not the
+    signature the documented derivation defines for that aux."""
+    rule = "C03.aux_in_commitment"
+    fi = ctx.func(f"{S}.sign_")
+    calls = [c for c in own_nodes(fi.node) if isinstance(c, ast.Call) and call_name(c) == "commit_entropy_" and c.args]
+    if not calls:
+        rep.unknown(rule, "sign_", fi.where(), "no commit_entropy_ call")
+        return
+    for c in calls:
+        names = {x.id for x in ast.walk(c.args[0]) if isinstance(x, ast.Name)}
+        ok = "aux" in names and "commit_hash" in names
+        rep.ob(rule, "sign_:commit_entropy_(aux || commitment)", ok, fi.where(c), "aux and the commitment are hashed together" if ok else
+               f"the committing nonce input is `{norm(c.args[0])[:60]}`: {'aux' if 'aux' not in names else 'the commitment'} does not enter it")
+
+
 RULES = [
+    ("C03.aux_in_commitment", rule_aux_in_commitment),
     ("C03.terms_multiset", rule_terms_multiset),
     ("C03.params_forwarded", rule_params_forwarded_),
     ("C03.own_fields", rule_own_fields),
